@@ -127,6 +127,144 @@ func pickGeoLen(g *G, size int, used uint64, L int) (Geo, bool) {
 	return Geo{}, false
 }
 
+func (d *gDbc) render(g *G, twin bool) {
+	// render
+	var sb strings.Builder
+	w := func(f string, a ...interface{}) { fmt.Fprintf(&sb, f+"\n", a...) }
+	w("VERSION \"\"")
+	w("NS_ :")
+	w("BS_:")
+	w("BU_: %s", strings.Join(d.nodes, " "))
+	for _, m := range d.msgs {
+		w("BO_ %d %s: %d %s", m.id, m.name, m.size, m.sender)
+		for _, s := range m.sigs {
+			mux := ""
+			if s.mux {
+				mux = " M"
+			} else if s.muxed {
+				mux = fmt.Sprintf(" m%d", s.muxVal)
+			}
+			ord, sign := "1", "+"
+			if s.geo.BE {
+				ord = "0"
+			}
+			if s.signed {
+				sign = "-"
+			}
+			w(" SG_ %s%s : %d|%d@%s%s (%s,%s) [%s|%s] \"%s\" %s", s.name, mux, s.geo.S, s.geo.L, ord, sign, s.factor, s.offset, s.min, s.max, s.unit, strings.Join(s.recv, ","))
+		}
+	}
+	w("BA_DEF_ BO_ \"GenMsgSendType\" ENUM \"None\",\"Cyclic\",\"Event\";")
+	w("BA_DEF_ BO_ \"GenMsgCycleTime\" INT 0 100000;")
+	w("BA_DEF_ SG_ \"GenSigStartValue\" INT 0 0;")
+	type mline struct {
+		mi, si int // si = -1: message-level
+		text   string
+	}
+	var metaLines []mline
+	for mi, m := range d.msgs {
+		if m.sendType != "" {
+			metaLines = append(metaLines, mline{mi, -1, fmt.Sprintf("BA_ \"GenMsgSendType\" BO_ %d \"%s\";", m.id, m.sendType)})
+			metaLines = append(metaLines, mline{mi, -1, fmt.Sprintf("BA_ \"GenMsgCycleTime\" BO_ %d %d;", m.id, m.cycle)})
+		}
+		for si, s := range m.sigs {
+			if s.hasDef {
+				metaLines = append(metaLines, mline{mi, si, fmt.Sprintf("BA_ \"GenSigStartValue\" SG_ %d %s %d;", m.id, s.name, s.def)})
+			}
+			if len(s.vds) > 0 {
+				var parts []string
+				for _, v := range s.vds {
+					parts = append(parts, fmt.Sprintf("%s \"%s\"", v[0], v[1]))
+				}
+				metaLines = append(metaLines, mline{mi, si, fmt.Sprintf("VAL_ %d %s %s ;", m.id, s.name, strings.Join(parts, " "))})
+			}
+			if s.flt {
+				metaLines = append(metaLines, mline{mi, si, fmt.Sprintf("SIG_VALTYPE_ %d %s : 1;", m.id, s.name)})
+			}
+		}
+	}
+	// metadata lines may come in any order (§4.2): half of the files shuffle them; half of the twin files
+	// interleave them signal by signal across the messages, each message's own lines in between
+	switch {
+	case twin && g.R.Bool():
+		var out []mline
+		used := make([]bool, len(metaLines))
+		for si := 0; si < 6; si++ {
+			for mi := range d.msgs {
+				for k, l := range metaLines {
+					if !used[k] && l.mi == mi && l.si == -1 {
+						used[k] = true
+						out = append(out, l)
+						break
+					}
+				}
+				for k, l := range metaLines {
+					if !used[k] && l.mi == mi && l.si == si {
+						used[k] = true
+						out = append(out, l)
+					}
+				}
+			}
+		}
+		for k, l := range metaLines {
+			if !used[k] {
+				out = append(out, l)
+			}
+		}
+		metaLines = out
+	case twin || g.R.Bool():
+		for i := len(metaLines) - 1; i > 0; i-- {
+			j := g.R.Intn(i + 1)
+			metaLines[i], metaLines[j] = metaLines[j], metaLines[i]
+		}
+	}
+	for _, l := range metaLines {
+		w("%s", l.text)
+	}
+	d.text = []byte(sb.String())
+}
+
+// genDbcSweep: the deterministic part of the class — program k of 4 (byte order x sign) has one message per length
+// L = 1..32 carrying a signal of L bits and one of 64-L bits, and one message with a 64-bit signal: every signal
+// length 1..64 occurs in every byte order and sign on every run, whatever the seed.  A third of the signals are scaled.
+func genDbcSweep(g *G, k int) *gDbc {
+	be, signed := k&1 == 1, k&2 == 2
+	d := &gDbc{nodes: []string{"NodeS0"}}
+	mk := func(name string, start, L int, mi int) *gSig {
+		sg := &gSig{name: name, signed: signed, factor: "1", offset: "0", min: "0", max: "0", recv: []string{"NodeS0"}}
+		sg.geo = Geo{be, start, L}
+		switch (L + 2*mi) % 6 {
+		case 0:
+			sg.factor = "0.5"
+		case 1:
+			sg.factor, sg.offset = "2", "-40"
+		}
+		return sg
+	}
+	for L := 1; L <= 33; L++ {
+		m := &gMsg{name: fmt.Sprintf("Sweep%d", L), size: 8, sender: "NodeS0", id: uint32(0x100 + L)}
+		if L%2 == 0 {
+			m.id = uint32(0x10000+L) | 0x80000000
+		}
+		if L == 33 {
+			st := 0
+			if be {
+				st = 7
+			}
+			m.sigs = []*gSig{mk("Whole", st, 64, L)}
+		} else {
+			st, st2 := 0, L
+			if be {
+				st, st2 = 7, BePos(7, L)
+			}
+			m.sigs = []*gSig{mk("Lo", st, L, L), mk("Hi", st2, 64-L, L)}
+		}
+		d.msgs = append(d.msgs, m)
+	}
+	d.render(g, false)
+	return d
+}
+
 func genDbc43(g *G, forceWC int) *gDbc {
 	d := &gDbc{}
 	nn := g.R.Intn(4)
@@ -324,100 +462,7 @@ func genDbc43(g *G, forceWC int) *gDbc {
 		}
 		d.msgs = append(d.msgs, m)
 	}
-	// render
-	var sb strings.Builder
-	w := func(f string, a ...interface{}) { fmt.Fprintf(&sb, f+"\n", a...) }
-	w("VERSION \"\"")
-	w("NS_ :")
-	w("BS_:")
-	w("BU_: %s", strings.Join(d.nodes, " "))
-	for _, m := range d.msgs {
-		w("BO_ %d %s: %d %s", m.id, m.name, m.size, m.sender)
-		for _, s := range m.sigs {
-			mux := ""
-			if s.mux {
-				mux = " M"
-			} else if s.muxed {
-				mux = fmt.Sprintf(" m%d", s.muxVal)
-			}
-			ord, sign := "1", "+"
-			if s.geo.BE {
-				ord = "0"
-			}
-			if s.signed {
-				sign = "-"
-			}
-			w(" SG_ %s%s : %d|%d@%s%s (%s,%s) [%s|%s] \"%s\" %s", s.name, mux, s.geo.S, s.geo.L, ord, sign, s.factor, s.offset, s.min, s.max, s.unit, strings.Join(s.recv, ","))
-		}
-	}
-	w("BA_DEF_ BO_ \"GenMsgSendType\" ENUM \"None\",\"Cyclic\",\"Event\";")
-	w("BA_DEF_ BO_ \"GenMsgCycleTime\" INT 0 100000;")
-	w("BA_DEF_ SG_ \"GenSigStartValue\" INT 0 0;")
-	type mline struct {
-		mi, si int // si = -1: message-level
-		text   string
-	}
-	var metaLines []mline
-	for mi, m := range d.msgs {
-		if m.sendType != "" {
-			metaLines = append(metaLines, mline{mi, -1, fmt.Sprintf("BA_ \"GenMsgSendType\" BO_ %d \"%s\";", m.id, m.sendType)})
-			metaLines = append(metaLines, mline{mi, -1, fmt.Sprintf("BA_ \"GenMsgCycleTime\" BO_ %d %d;", m.id, m.cycle)})
-		}
-		for si, s := range m.sigs {
-			if s.hasDef {
-				metaLines = append(metaLines, mline{mi, si, fmt.Sprintf("BA_ \"GenSigStartValue\" SG_ %d %s %d;", m.id, s.name, s.def)})
-			}
-			if len(s.vds) > 0 {
-				var parts []string
-				for _, v := range s.vds {
-					parts = append(parts, fmt.Sprintf("%s \"%s\"", v[0], v[1]))
-				}
-				metaLines = append(metaLines, mline{mi, si, fmt.Sprintf("VAL_ %d %s %s ;", m.id, s.name, strings.Join(parts, " "))})
-			}
-			if s.flt {
-				metaLines = append(metaLines, mline{mi, si, fmt.Sprintf("SIG_VALTYPE_ %d %s : 1;", m.id, s.name)})
-			}
-		}
-	}
-	// metadata lines may come in any order (§4.2): half of the files shuffle them; half of the twin files
-	// interleave them signal by signal across the messages, each message's own lines in between
-	switch {
-	case twin && g.R.Bool():
-		var out []mline
-		used := make([]bool, len(metaLines))
-		for si := 0; si < 6; si++ {
-			for mi := range d.msgs {
-				for k, l := range metaLines {
-					if !used[k] && l.mi == mi && l.si == -1 {
-						used[k] = true
-						out = append(out, l)
-						break
-					}
-				}
-				for k, l := range metaLines {
-					if !used[k] && l.mi == mi && l.si == si {
-						used[k] = true
-						out = append(out, l)
-					}
-				}
-			}
-		}
-		for k, l := range metaLines {
-			if !used[k] {
-				out = append(out, l)
-			}
-		}
-		metaLines = out
-	case twin || g.R.Bool():
-		for i := len(metaLines) - 1; i > 0; i-- {
-			j := g.R.Intn(i + 1)
-			metaLines[i], metaLines[j] = metaLines[j], metaLines[i]
-		}
-	}
-	for _, l := range metaLines {
-		w("%s", l.text)
-	}
-	d.text = []byte(sb.String())
+	d.render(g, twin)
 	return d
 }
 
@@ -583,6 +628,10 @@ func emitGenOps(g *G, nDbc, seqPerMsg, seqLen int, which string) {
 			force = i % len(widthClasses)
 		}
 		d := genDbc43(g, force)
+		if i < 4 && which == "C10" {
+			d = genDbcSweep(g, i)
+			g.Tag("dbc-length-sweep")
+		}
 		h := HexS(d.text)
 		g.Tag("dbc")
 		if which == "C03" {
@@ -691,7 +740,10 @@ func genC11(g *G) {
 }
 
 func genC03(g *G) { emitGenOps(g, g.N(24, 400), g.N(4, 12), 0, "C03") }
-func genC10(g *G) { emitGenOps(g, g.N(24, 400), g.N(10, 40), g.N(40, 400), "C10") }
+func genC10(g *G) {
+	emitValidateBoundary(g)
+	emitGenOps(g, g.N(24, 400), g.N(10, 40), g.N(40, 400), "C10")
+}
 func genC19(g *G) { emitGenOps(g, g.N(24, 400), g.N(12, 40), 0, "C19") }
 
 func init() {
